@@ -26,6 +26,7 @@ func init() {
 			})
 			c.run("C05-R8", "MUST-PASS: the wrapper's pumps hand on exactly what they read and end only on EOF", c05R8)
 			c.run("C05-R7", "ORDER: exit status passed on", c05R7)
+			c.run("C05-R9", "ORDER/GUARD-DOM: a transfer that stopped reading no longer queues the pump's output", stopLatchRule)
 			c.run("C05-S2", "shared with C19-R1: header detection and the five-CAN cancel marker", c19R1)
 			c.run("C05-S1", "shared with C06-R3: the words that mark a finished transfer in scroll-back are the words the servers print (a replayed, finished handshake stays plain output)", c06R3)
 		})
@@ -639,5 +640,40 @@ func c05R8(c *Ctx) {
 		}
 		hit, path = reachFromE(read.Block(), instrIndex(read)+1, isReturn, closes, nil)
 		c.check(hit == nil, name+"/EOF-closes-remote-input", c.ipos(read), "when the terminal's input ends the remote side's input is closed", "the pump can end without closing the remote side's input", c.pathStr(path)...)
+	}
+}
+
+// stopLatchRule: once nobody reads the transfer's queue any more, nothing is put into it.
+// cleanInput (the wind-up of a failed transfer) latches 'stopped' before it drains, and the
+// pump-side entry enqueues only where 'stopped' was just read false. Without either half the
+// wrapper's single output pump fills the bounded queue of a dead transfer and blocks for good.
+func stopLatchRule(c *Ctx) {
+	ci := c.fn("trzszTransfer.cleanInput")
+	drains := callsIn(ci, idIs("(*trzsz.trzszBuffer).drainBuffer"))
+	if len(drains) == 0 {
+		c.lost("drainBuffer call in cleanInput")
+	}
+	var latch ssa.Instruction
+	eachInstr(ci, func(in ssa.Instruction) {
+		if isStoppedLatch(in) && latch == nil {
+			latch = in
+		}
+	})
+	for _, d := range drains {
+		c.check(latch != nil && domI(latch, d), "cleanInput/latches-stopped-before-drain", c.ipos(d), "the wind-up sets 'stopped' before draining the queue", "the wind-up of a failed transfer drains the queue without first setting 'stopped': later output is queued where nobody reads it, and the output pump blocks when the queue is full")
+	}
+	ar := c.fn("trzszTransfer.addReceivedData")
+	adds := callsIn(ar, idIs("(*trzsz.trzszBuffer).addBuffer"))
+	if len(adds) == 0 {
+		c.lost("addBuffer call in addReceivedData")
+	}
+	for _, a := range adds {
+		gated := false
+		for _, fc := range factsAt(a.Block()) {
+			if call, _ := callOf(fc.V); call != nil && !fc.Pol && isAtomicOnField(call, "stopped", "Load") {
+				gated = true
+			}
+		}
+		c.check(gated, "addReceivedData/enqueue-only-while-running", c.ipos(a), "bytes are queued only where 'stopped' was read false", "bytes are queued for a transfer that has stopped reading")
 	}
 }
